@@ -31,6 +31,7 @@ func evalOn(e *jsonata.Expr, input interface{}) goResult {
 // ---- C05 ------------------------------------------------------------------------
 
 func runC05(c *ctx) {
+	stmtC05(c)
 	c.rep.Rule = "generated programs over every node type and built-in (chain / partial / context-defaulting shapes over-weighted), " +
 		"histories of 2..5 Eval calls on one Expr with equal and different inputs and with other expressions (other calls of the same " +
 		"built-ins under other contexts) evaluated in between; after every call: outcome vs the outcome of a freshly compiled Expr on the " +
@@ -171,7 +172,10 @@ func runC05(c *ctx) {
 	// member evaluation order of object constructors (F35): repeated evaluation gives one outcome, and it is the model's
 	for _, prog := range []string{"{\"a\": $x := 1, \"b\": $x, \"c\": $x, \"d\": $x}", "{\"p\": $q1, \"q\": $q1 := a, \"r\": $q1, \"s\": $q1}",
 		"items{g: $seen, s: $seen := 1}", "items{\"one\": $k1 := 1, \"two\": $k1, \"three\": $exists($k1), \"four\": $k1, \"five\": $k1}",
-		"[{\"a\": $y := n, \"b\": $y, \"c\": $exists($y)}, $y]", "items{s: $exists($m1) ? \"later\" : ($m1 := \"first\")}"} {
+		"[{\"a\": $y := n, \"b\": $y, \"c\": $exists($y)}, $y]", "items{s: $exists($m1) ? \"later\" : ($m1 := \"first\")}",
+		// F38: the snapshots a transform inserts show the object as it was before the update, whatever the order of the members
+		"b ~> |$|{\"a1\": 1, \"b1\": $}|", "$ ~> |b|{\"a1\": 1, \"b1\": 2, \"c1\": $}|", "(b ~> |$|{\"a1\": 1, \"b1\": $}|).b1.a1", "$count($keys((b ~> |$|{\"a1\": 1, \"b1\": 2, \"c1\": $}|).c1))",
+		"$exists((b ~> |$|{\"a1\": 1, \"b1\": $}|).b1.a1)"} {
 		d := fullDoc(r, false)
 		first := ""
 		for rep := 0; rep < 24; rep++ {
@@ -299,11 +303,12 @@ func sameOutcomeClass(a, b string) bool {
 // ---- C07 ------------------------------------------------------------------------
 
 var c07Patterns = []string{"e", "items.m", "items.m", "$", "items", "items[id > 0]", "items[0]", "b", "**", "*", "items.a", "nothing", "items[k = 1]", "$.items", "b.c", "items[-1]", "**[id = 1]"}
-var c07Updates = []string{`{"z": 1}`, `{"k": k + 10}`, `{"s": "new", "t": id}`, `{}`, `{"k": "str"}`, `{"n": $count($keys($))}`, `"bad"`, `[1]`, `nothing`, `{"id": id * 2, "k": k}`}
+var c07Updates = []string{`{"a1": 1, "b1": $}`, `{"a1": 1, "b1": 2, "c1": $[0]}`, `{"n1": 1, "self": [$, k]}`, `{"z": 1}`, `{"k": k + 10}`, `{"s": "new", "t": id}`, `{}`, `{"k": "str"}`, `{"n": $count($keys($))}`, `"bad"`, `[1]`, `nothing`, `{"id": id * 2, "k": k}`}
 var c07Deletes = []string{"", `"k"`, `["k", "s"]`, `"nope"`, `[]`, `1`, `["k", 1]`, `nothing`, `"id"`}
 var c07Foreign = []string{"$$", "$$.items", "$v", "$$.b", "$v.items[0]"}
 
 func runC07(c *ctx) {
+	stmtC05(c)
 	c.rep.Rule = "full generator (every operator and built-in, $sort/$reverse/$append/$shuffle/$zip/$merge/$distinct/order-by/grouping over-weighted) " +
 		"plus transforms with context-relative, root-anchored and variable-anchored patterns, nested, through ~> and $map; inputs with nulls, " +
 		"shared sub-structures and empty containers; after every Eval (successful or failing) the input and a registered variable are compared " +
@@ -506,6 +511,16 @@ func runTotality(c *ctx, prop string) {
 		"$sum($append(bigs, negs))", "$sort(strs)", "$join(strs)", "$reverse(bigs)", "$distinct(bigs)", "$sum(x)", "$average(x)", "$max(x)", "$count(bigs)"} {
 		one(p, seedDoc, "seed")
 		one(p, typedSeed, "seed-typed")
+	}
+	for _, p := range []string{"($distinct($sum) ~> $string)([1])", "$map([1,2], $distinct(function($x){$x}) ~> $string)", "[1,2] ~> ($distinct($sum) ~> $string)",
+		"($sort($sum)[0] ~> $string)(1)", "($reduce([], $append, $sum) ~> $string)(1)", "($shuffle($sum)[0] ~> $string)(1)", "($zip($sum)[0][0] ~> $string)(1)",
+		"($filter($sum, function($f){true})[0] ~> $string)(1)", "($map($sum, function($f){$f})[0] ~> $string)(1)", "($distinct(/a/) ~> $string)(\"a\")",
+		"($distinct($sum) ~> $distinct($string))(1)", "$distinct($sum)(1)", "[1] ~> $sort($sum)[0]"} {
+		g := goEval(p, nil)
+		c.note("copied-fn\x00"+p, "copied-function-values", true)
+		if g.panicV != nil || g.timeout {
+			c.disagree(Disagreement{Kind: "panic-or-hang", Prog: p, Go: g.outcome, Model: "a value, 'no value' or an error"})
+		}
 	}
 	for _, p := range c09Seeds {
 		one(p, typedSeed, "seed-typed")
